@@ -976,6 +976,7 @@ def _compute_delj(dx, MInt, VInt, axis=0):
         # for functioning with MInt.
         upslice = [nuax for ii in range(MInt.ndim)]
         upslice [axis] = slice(None)
+        upslice = tuple(upslice)
 
         wj = 2 *MInt*dx[upslice]
         epsj = numpy.exp(wj/VInt[upslice])
